@@ -458,6 +458,17 @@ def fingerprint(pn):
     return None
 
 
+def fingerprint_crash(case, log):
+    """crash of the test binary on a model case: the reply path needing more than 255 fragments"""
+    if case.get("k") == "srv" and "index out of range" in log and "FragUDPMessage" in log:
+        for a in case["acts"]:
+            if a["a"] == "reply" and a.get("max") is not None:
+                budget = a["max"] - hdr_size(a["al"])
+                if budget > 0 and -(-a["dl"] // budget) > 255:
+                    return "frag-count>255-panic"
+    return None
+
+
 # ------------------------------------------------------------------ running the Go side
 def make_kit(pkgname, quicbuild):
     d = os.path.join(common.VERIF, "harness", "go", "_gen")
@@ -495,14 +506,21 @@ def run_pkg(ctx, spec, cases, tag, trace=False, timeout=1500):
 
 
 def fuzz_n(spec, tier):
-    n = 3000 if tier == "quick" else 300000
     if spec.get("slow"):
-        n = 700 if tier == "quick" else 20000
-    return n
+        return 700 if tier == "quick" else 2000
+    return 3000 if tier == "quick" else 10000
+
+
+def fuzz_jobs(spec, tier):
+    """thorough = 100x the quick tier's inputs (speed test: ~30x), as jobs of bounded size with their own seeds"""
+    if tier == "quick":
+        return 1
+    return 10 if spec.get("slow") else 30
 
 
 def pkg_cases(spec, tier, seed, models):
-    cases = [{"k": "fuzz", "ep": ep, "seed": seed, "n": fuzz_n(spec, tier)} for ep in spec["eps"]]
+    cases = [{"k": "fuzz", "ep": ep, "seed": seed if j == 0 else seed * 1000 + j, "n": fuzz_n(spec, tier)}
+             for j in range(fuzz_jobs(spec, tier)) for ep in spec["eps"]]
     for kind in spec.get("kinds", ()):
         cases += models["realm" if kind in ("ipport", "disc") else kind] if kind != "disc" else []
     return cases
@@ -515,6 +533,16 @@ def crash_violation(ctx, spec, cases, outs, log):
     rest = cases[done:done + 1]
     if not rest:
         return None
+    if rest[0]["k"] != "fuzz":
+        # a model-comparison case: the case itself is the concrete failing history
+        ok, o2, _, log2 = run_pkg(ctx, spec, rest, "trace")
+        if ok:
+            return None
+        m = [l for l in (log2 or "").splitlines() if l.startswith("panic:") or "fatal error" in l]
+        return {"what": "%s: the process crashed (panic outside the harness's recover, e.g. in a goroutine of the code) on a %s history: %s"
+                        % (spec["pkgname"], rest[0]["k"], (m[0] if m else "see log")[:300]),
+                "replay": {"pkg": spec["pkgname"], "case": rest[0], "log": (log2 or log)[-3000:]},
+                "fingerprint": fingerprint_crash(rest[0], log2 or ""), "found_input": True}
     ok, o2, _, log2 = run_pkg(ctx, spec, rest, "trace", trace=True)
     tp = ctx.path("trace_%s_trace.txt" % spec["pkgname"])
     last = ""
@@ -579,13 +607,13 @@ def run(ctx):
                 inputs += o.get("n", 0)
                 datagrams += o.get("datagrams", 0)
                 for kcls, cnt in (o.get("classes") or {}).items():
-                    hist["%s:%s" % (c["ep"], kcls)] = cnt
+                    hist["%s:%s" % (c["ep"], kcls)] = hist.get("%s:%s" % (c["ep"], kcls), 0) + cnt
                 triv = max((o.get("classes") or {"": 0}).values())
                 nontriv += o.get("n", 0) - triv
                 for pn in o.get("panics") or []:
                     violations.append({"what": "panic in %s: %s (input %s)" % (pn["ep"], pn["msg"], ",".join(pn["seq"])[:300]),
                                        "replay": {"pkg": s["pkgname"], "case": {"k": "one", "ep": pn["ep"], "seq": pn["seq"]}, "impl": pn},
-                                       "fingerprint": fingerprint(pn), "found_input": True})
+                                       "fingerprint": fingerprint(pn) or "panic:" + pn["ep"], "found_input": True})
             else:
                 hist["model:" + c["k"] + (":" + c["f"] if "f" in c else "")] = hist.get("model:" + c["k"] + (":" + c["f"] if "f" in c else ""), 0) + 1
                 if len(c.get("acts", c.get("evs", c.get("items", [1, 2])))) >= 2:
@@ -627,10 +655,19 @@ def run(ctx):
         samples.append({"case": c, "impl": {k: v for k, v in o.items() if k != "i"}})
     cov = {"evaluations": inputs + len(terms), "distinct_nontrivial": nontriv, "rule": RULE, "samples": samples,
            "traces_validated_against_impl": len(terms), "model_impl_disagreements": len(mism), "input_classes": hist,
-           "entry_points": len(eprows), "datagrams_fed": datagrams, "packages": [s["module"] + "/" + s["pkg"] for s in GO_ALL],
-           "per_entry_point": {o.get("ep"): {"inputs": o.get("n"), "datagrams": o.get("datagrams"), "panics": o.get("npanic"), "ms": o.get("ms")} for o in eprows}}
-    ctx.say("entry points=%d inputs=%d datagrams=%d model cases=%d" % (len(eprows), inputs, datagrams, len(terms)))
+           "entry_points": len(set(o.get("ep") for o in eprows)), "datagrams_fed": datagrams, "packages": [s["module"] + "/" + s["pkg"] for s in GO_ALL],
+           "per_entry_point": per_ep(eprows)}
+    ctx.say("entry points=%d inputs=%d datagrams=%d model cases=%d" % (cov["entry_points"], inputs, datagrams, len(terms)))
     return common.finish(ctx, pinfo, cov, violations, ASSUMPTIONS, trusted_extra=TRUSTED)
+
+
+def per_ep(rows):
+    out = {}
+    for o in rows:
+        d = out.setdefault(o.get("ep"), {"inputs": 0, "datagrams": 0, "panics": 0, "ms": 0})
+        for k, f in (("inputs", "n"), ("datagrams", "datagrams"), ("panics", "npanic"), ("ms", "ms")):
+            d[k] += o.get(f) or 0
+    return out
 
 
 def search(ctx):
@@ -645,7 +682,7 @@ def search(ctx):
                 for pn in o.get("panics") or []:
                     found.append({"what": "panic in %s: %s (input %s)" % (pn["ep"], pn["msg"], ",".join(pn["seq"])[:300]),
                                   "replay": {"pkg": s["pkgname"], "case": {"k": "one", "ep": pn["ep"], "seq": pn["seq"]}, "impl": pn},
-                                  "fingerprint": fingerprint(pn), "found_input": True})
+                                  "fingerprint": fingerprint(pn) or "panic:" + pn["ep"], "found_input": True})
         if found:
             break
     return found
